@@ -101,6 +101,13 @@ func mk(op string, args ...*Term) *Term {
 		sort.Slice(rest, func(i, j int) bool { return rest[i].String() < rest[j].String() })
 		return &Term{Op: op, Args: rest}
 	}
+	if op == "&^" && len(args) == 2 && !(args[0].isConst() && args[1].isConst()) {
+		// x &^ y == x & ^y: one canonical form for both spellings
+		return mk("&", args[0], mk("u^", args[1]))
+	}
+	if op == "u^" && len(args) == 1 && args[0].isConst() {
+		return tConst(^args[0].C)
+	}
 	if op == "<<" && len(args) == 2 && args[1].isConst() && args[1].C < 64 && !args[0].isConst() {
 		// x << c == x * 2^c in modular arithmetic: one canonical form for both spellings
 		return mk("*", args[0], tConst(uint64(1)<<args[1].C))
